@@ -275,6 +275,32 @@ func (ex *Exec) intrinsic(fn *ssa.Function, args []Val, caller *frame) (Val, boo
 			out[i] = ex.mkI(ex.tb.Ite(up, ex.tb.Bin(OpAdd, x.T, ex.tb.Const(32, 8)), x.T))
 		}
 		return out, true
+	case "sort.Strings":
+		sl := args[0].([]Val)
+		for _, e := range sl {
+			if _, ok := e.(string); !ok {
+				panic(unsupported{"sort.Strings symbolic"})
+			}
+		}
+		sort.SliceStable(sl, func(i, j int) bool { return sl[i].(string) < sl[j].(string) })
+		return nil, true
+	case "sort.Slice", "sort.SliceStable":
+		// insertion sort driven by the interpreted less(i, j) closure (operates on the slice in place)
+		xi := args[0].(iface)
+		sl, _ := xi.v.([]Val)
+		for i := 1; i < len(sl); i++ {
+			for j := i; j > 0; j-- {
+				lt, ok := ex.callValue(args[1], []Val{mkInt(64, uint64(j)), mkInt(64, uint64(j-1))}, caller).(Bool)
+				if !ok {
+					panic(unsupported{"sort.Slice less result"})
+				}
+				if !ex.decide(lt) {
+					break
+				}
+				sl[j], sl[j-1] = sl[j-1], sl[j]
+			}
+		}
+		return nil, true
 	case "sort.Ints":
 		s := args[0].([]Val)
 		for _, e := range s {
